@@ -39,7 +39,7 @@ DESCR += [(r"c17_._intertwine_n(\d)", "resolver output of n addresses, each symb
 
 PROPS["C11"] = dict(
     filters={"quick": ["c11_q", "c11_qtwin"], "thorough": ["c11_"]},
-    timeout_s={"quick": 500, "thorough": 1800},
+    timeout_s={"quick": 900, "thorough": 2400},
     mem_gb=24, jobs={"quick": 10, "thorough": 8},
     kernel=["ProxySettings::for_url", "ProxySettingsBuilder::{new,http_proxy,https_proxy,add_no_proxy_host,build}",
             "ProxySettings::from_env", "get_env", "get_env_url", "url::Url::{host_str,scheme} on factory-built Urls"],
@@ -71,7 +71,7 @@ DESCR += [(r"c01_._chunked", "well-formed chunked body (shape in the name) with 
           (r"c01_._close", "close-delimited body with symbolic payload read to EOF through BodyReader::Close")]
 
 PROPS["C02"] = dict(
-    filters={"quick": ["c02_q", "c02_qtwin"], "thorough": ["c02_"]},
+    filters={"quick": ["c02_q", "c02_qtwin", "c05_q_step"], "thorough": ["c02_", "c05_q_step", "c05_t_step"]},
     timeout_s={"quick": 600, "thorough": 1800},
     kernel=_BODY_KERNEL,
     bounds="every cut offset of each listed frame (chunked shapes of <=2 chunks of <=5 bytes, length/close bodies of 4 bytes) x fault in {EOF, ConnectionReset, WouldBlock, TimedOut} "
@@ -109,7 +109,8 @@ PROPS["C05"] = dict(
     stubs=["core::slice::memchr::memchr -> naive byte loop", "core::str::from_utf8 -> byte-wise validator", "io::Error::is_interrupted -> false"],
     assumptions=["refill buffer limit shrunk to 4 bytes (hook H3); the allocation bound is shown relative to that constant"],
 )
-DESCR += [(r"c05_._parse_chunk_size_len", "parse_chunk_size on every byte string of the given length: no panic, result equals the reference on ASCII input"),
+DESCR += [(r"c05_._step", "one read from an arbitrary valid ChunkedReader state (symbolic buffer contents, cursor, eof flag; enumerated buffer length and remaining) against an enumerated continuation of the wire: invariant preserved, buffered bytes first and in order, poisoned after an error"),
+          (r"c05_._parse_chunk_size_len", "parse_chunk_size on every byte string of the given length: no panic, result equals the reference on ASCII input"),
           (r"c05_._parse_chunk_size_1", "parse_chunk_size on every 16/17-digit hex string: exact value / overflow rejected"),
           (r"c05_._huge", "chunk declaring a huge size with only a few bytes present: buffer stays within the refill limit, body ends in an error"),
           (r"c05_._endless", "size line without end: rejected after a bounded amount of input")]
